@@ -306,6 +306,29 @@ func cliExchange(c *simConn, prop, line string) (*cliResponse, bool) {
 	return &cliResponse{raw, obj}, true
 }
 
+// cliCheckReported: when nothing else can run, every thread that waits inside the
+// debugger for a continue command is one that status reports as suspended - a thread
+// that waits unreported can never be resumed by a client.
+func cliCheckReported(reported []string, quietBefore bool) {
+	// (nothing could run before status was asked for and nothing can run now: the
+	// answer describes the present state)
+	if !quietBefore || !simrt.OthersQuiescent() {
+		return
+	}
+	waiting := 0
+	var who []string
+	for _, b := range simrt.BlockedTasks() {
+		if strings.Contains(b, "waitForContinue") {
+			waiting++
+			who = append(who, b)
+		}
+	}
+	if waiting > len(reported) {
+		simrt.Fail("oracle:thread-not-reported", "suspended-thread-not-reported",
+			"%d thread(s) wait inside the debugger for a continue command, status reports %d suspended thread(s) %v: %s", waiting, len(reported), reported, strings.Join(who, "; "))
+	}
+}
+
 func cliSuspended(r *cliResponse) []string {
 	var out []string
 	th, _ := r.obj["threads"].(map[string]interface{})
@@ -435,12 +458,14 @@ func cliRun(p *dbgPlan, prop string) {
 		defer resumerDone.set()
 		idle := 0
 		for !(clientsDone.get() && consoleDone.get()) {
+			quiet := simrt.OthersQuiescent()
 			r, ok := cliExchange(resumer, prop, "##status")
 			if !ok {
 				simrt.Fail("oracle:harness", "resumer-lost", "the connection of the resumer ended")
 			}
 			susp := cliSuspended(r)
 			lastSuspended = susp
+			cliCheckReported(susp, quiet)
 			if len(susp) == 0 && simrt.OthersQuiescent() {
 				idle++
 				if idle >= 3 {
@@ -473,6 +498,7 @@ func cliRun(p *dbgPlan, prop string) {
 				simrt.Fail("oracle:harness", "resumer-lost", "the connection of the resumer ended")
 			}
 			susp := cliSuspended(r)
+			cliCheckReported(susp, true)
 			if len(susp) == 0 && simrt.OthersQuiescent() {
 				break
 			}
